@@ -6,11 +6,9 @@
 package main
 
 import (
-	"bytes"
 	"encoding/json"
 	"fmt"
 	"os"
-	"os/exec"
 	"path/filepath"
 	"runtime"
 	"sort"
@@ -18,208 +16,9 @@ import (
 	"strings"
 	"sync"
 
-	"github.com/styrainc/regal/pkg/config"
-
+	. "verifharness/cmd/c13/ws"
 	"verifharness/hutil"
 )
-
-// WFile is a rego file of the workspace before the run.
-type WFile struct {
-	Path  string `json:"path"`  // relative to the workspace root
-	Pkg   string `json:"pkg"`   // dotted package path, e.g. "a.b"
-	Dirty bool   `json:"dirty"` // carries a no-whitespace-comment violation
-	ID    int    `json:"id"`    // unique token inside the content
-}
-
-// WS describes a workspace and one invocation.
-type WS struct {
-	Name      string   `json:"name"`
-	Files     []WFile  `json:"files"`
-	Others    []string `json:"others"`     // non-rego regular files (relative paths)
-	EmptyDirs []string `json:"empty_dirs"` // directories that exist without content
-	RegalDirs []string `json:"regal_dirs"` // directories that get an (empty) .regal directory; "" = workspace root
-	CfgRoots  []string `json:"cfg_roots"`  // project.roots of <root>/.regal/config.yaml (only with "" in RegalDirs)
-	Manifests []string `json:"manifests"`  // directories that get a .manifest file
-	Args      []string `json:"args"`       // path arguments, relative to the workspace root ("" = the root itself)
-	AbsArgs   bool     `json:"abs_args"`
-	Cwd       string   `json:"cwd"`    // working directory relative to the workspace root
-	Ignore    string   `json:"ignore"` // --ignore-files pattern ("" = none)
-	Policy    string   `json:"policy"` // error | rename
-	DryRun    bool     `json:"dry_run"`
-}
-
-func content(f WFile) string {
-	c := ""
-	if f.Dirty {
-		c = "#bad\n"
-	}
-	return fmt.Sprintf("package %s\n\n%sf%d := %d\n", f.Pkg, c, f.ID, f.ID)
-}
-
-func fixedContent(f WFile) string {
-	g := f
-	g.Dirty = false
-	s := content(g)
-	if f.Dirty {
-		s = strings.Replace(content(f), "#bad\n", "# bad\n", 1)
-	}
-	return s
-}
-
-type Snap struct {
-	Files map[string]string `json:"files"` // relative path -> content
-	Dirs  []string          `json:"dirs"`  // relative paths, "" = root
-}
-
-func snapshot(root string) Snap {
-	s := Snap{Files: map[string]string{}, Dirs: []string{}}
-	filepath.Walk(root, func(p string, info os.FileInfo, err error) error {
-		if err != nil {
-			return nil
-		}
-		rel, _ := filepath.Rel(root, p)
-		if rel == "." {
-			rel = ""
-		}
-		if info.IsDir() {
-			s.Dirs = append(s.Dirs, rel)
-		} else {
-			b, _ := os.ReadFile(p)
-			s.Files[rel] = string(b)
-		}
-		return nil
-	})
-	sort.Strings(s.Dirs)
-	return s
-}
-
-func materialise(ws *WS, root string) error {
-	must := func(err error) {
-		if err != nil {
-			panic(err)
-		}
-	}
-	must(os.MkdirAll(root, 0o755))
-	for _, d := range ws.EmptyDirs {
-		must(os.MkdirAll(filepath.Join(root, d), 0o755))
-	}
-	for _, f := range ws.Files {
-		p := filepath.Join(root, f.Path)
-		must(os.MkdirAll(filepath.Dir(p), 0o755))
-		must(os.WriteFile(p, []byte(content(f)), 0o644))
-	}
-	for _, o := range ws.Others {
-		p := filepath.Join(root, o)
-		must(os.MkdirAll(filepath.Dir(p), 0o755))
-		must(os.WriteFile(p, []byte("other "+o+"\n"), 0o644))
-	}
-	for _, d := range ws.RegalDirs {
-		must(os.MkdirAll(filepath.Join(root, d, ".regal"), 0o755))
-		if d == "" && len(ws.CfgRoots) > 0 {
-			var sb strings.Builder
-			sb.WriteString("project:\n  roots:\n")
-			for _, r := range ws.CfgRoots {
-				sb.WriteString("    - " + r + "\n")
-			}
-			must(os.WriteFile(filepath.Join(root, ".regal", "config.yaml"), []byte(sb.String()), 0o644))
-		}
-	}
-	for _, d := range ws.Manifests {
-		must(os.MkdirAll(filepath.Join(root, d), 0o755))
-		must(os.WriteFile(filepath.Join(root, d, ".manifest"), []byte("{}\n"), 0o644))
-	}
-	return nil
-}
-
-type Result struct {
-	Kind   string   `json:"kind"`
-	WS     *WS      `json:"ws"`
-	Roots  []string `json:"roots"` // config.GetPotentialRoots, relative to the workspace root ("" = root; "^..." = outside)
-	Before Snap     `json:"before"`
-	After  Snap     `json:"after"`
-	Exit   int      `json:"exit"`
-	Stderr string   `json:"stderr"`
-	Stdout string   `json:"stdout"`
-	Cmd    []string `json:"cmd"`
-}
-
-func runCase(ws *WS, workdir, regal string, idx int) Result {
-	root := filepath.Join(workdir, "w"+strconv.Itoa(idx))
-	os.RemoveAll(root)
-	materialise(ws, root)
-	real, _ := filepath.EvalSymlinks(root)
-	root = real
-	res := Result{Kind: "ws", WS: ws}
-	res.Before = snapshot(root)
-	var absArgs, args []string
-	cwd := filepath.Join(root, ws.Cwd)
-	for _, a := range ws.Args {
-		ap := filepath.Join(root, a)
-		absArgs = append(absArgs, ap)
-		if ws.AbsArgs {
-			args = append(args, ap)
-		} else {
-			rel, _ := filepath.Rel(cwd, ap)
-			args = append(args, rel)
-		}
-	}
-	roots, err := config.GetPotentialRoots(absArgs...)
-	if err != nil {
-		res.Roots = []string{"!error"}
-	}
-	for _, r := range roots {
-		rel, err := filepath.Rel(root, r)
-		switch {
-		case err != nil || strings.HasPrefix(rel, ".."):
-			res.Roots = append(res.Roots, "^"+r)
-		case rel == ".":
-			res.Roots = append(res.Roots, "")
-		default:
-			res.Roots = append(res.Roots, rel)
-		}
-	}
-	sort.Strings(res.Roots)
-	cmdArgs := []string{"fix", "--force"}
-	if ws.Policy == "rename" {
-		cmdArgs = append(cmdArgs, "--on-conflict", "rename")
-	}
-	if ws.DryRun {
-		cmdArgs = append(cmdArgs, "--dry-run")
-	}
-	if ws.Ignore != "" {
-		cmdArgs = append(cmdArgs, "--ignore-files", ws.Ignore)
-	}
-	cmdArgs = append(cmdArgs, args...)
-	res.Cmd = cmdArgs
-	cmd := exec.Command(regal, cmdArgs...)
-	cmd.Dir = cwd
-	if idx%4 != 0 { // most runs with two OS threads (cheaper when many run at once), every fourth with the default
-		cmd.Env = append(os.Environ(), "GOMAXPROCS=2")
-	}
-	var so, se bytes.Buffer
-	cmd.Stdout, cmd.Stderr = &so, &se
-	err = cmd.Run()
-	res.Exit = 0
-	if err != nil {
-		if ee, ok := err.(*exec.ExitError); ok {
-			res.Exit = ee.ExitCode()
-		} else {
-			res.Exit = -1
-		}
-	}
-	res.Stderr = strings.ReplaceAll(trunc(se.String()), root, "/R")
-	res.Stdout = strings.ReplaceAll(trunc(so.String()), root, "/R")
-	res.After = snapshot(root)
-	os.RemoveAll(root)
-	return res
-}
-
-func trunc(s string) string {
-	if len(s) > 1500 {
-		return s[:1500]
-	}
-	return s
-}
 
 // ---- generator -----------------------------------------------------------------------------------
 
@@ -396,7 +195,7 @@ func main() {
 			}
 		}
 		rng := hutil.NewRng(hutil.SeedFromEnv())
-		n := 170
+		n := 120
 		if tier == "thorough" {
 			n = 4000
 		}
@@ -413,7 +212,7 @@ func main() {
 		go func(i int) {
 			defer wg.Done()
 			defer func() { <-sem }()
-			results[i] = runCase(cases[i], workdir, regal, i)
+			results[i] = RunCase(cases[i], workdir, regal, i)
 		}(i)
 	}
 	wg.Wait()
